@@ -66,7 +66,7 @@ def run(ctx):
     else:
         traces(ctx, 8, 70, 300)
     # positions beyond 2^16: one long run judged item by item without history (LongTrace)
-    dense = 1 if ctx.thorough() else 0
+    dense = 1
     lt = ctx.path("klong.ndjson")
     vlib.kvh(["trace", "kmerlong", ctx.seed, 68500, dense], out=lt)
     vlib.validate_trace(ctx, "LongTrace", lt, "a 68 500-base sequence (positions beyond 2^16), every item judged from the input bytes", "kinit")
